@@ -2,7 +2,7 @@
    obligations of Properties/C19.v, not cited by the check).
    Before commit 8b27d3f the root rule of the bundled lexer carried the auto-indent alternative for the COMMENT delimiter as
    well (`model_bundled_rules_q true`); finding F-JINJA-COMMENT-STAR, now status fixed. *)
-From Verif Require Import JinjaScan JinjaScanThm.
+From Verif Require Import JinjaScan JinjaScanThm JinjaMarkerThm.
 Open Scope N_scope.
 
 (* The hypothesis is necessary, also for "{#*": a COMMENT that merely starts with `*` loses the blanks before it in the
@@ -16,4 +16,23 @@ Theorem C19_history_scan_conservative_refuted :
     scan_all py_uni (model_bundled_rules_q true) (fun _ _ => Some ([], 7%nat)) src <> scan_stock (fun _ _ => Some ([], 7%nat)) src.
 Proof. exact comment_star_refuted. Qed.
 Print Assumptions C19_history_scan_conservative_refuted.
+
+
+(* Before commit a6cc424 Parser.subparse tested `token.value.endswith('*')` and sliced `token.value[:-3]` whatever the delimiters
+   were (`marker_m false`); finding F-JINJA-MARKER-DELIM (D1 + D2), now status fixed. *)
+(* the LEGACY marker code (`endswith('*')`, `[:-3]`) is wrong outside two-character delimiters: finding F-JINJA-MARKER-DELIM.
+   D1: with start string "\VAR{" the prefix of "  \VAR{*" is not "  ";  D2: the PLAIN opener "<*" is taken for a marker.
+ *)
+Theorem C19_history_legacy_marker_prefix_refuted : exists D w : str, D <> [] /\ marker_m false [D] (w ++ D ++ [42]) <> Some w.
+Proof. exact legacy_prefix_refuted. Qed.
+Print Assumptions C19_history_legacy_marker_prefix_refuted.
+
+Theorem C19_history_legacy_marker_plain_opener_refuted : exists D : str, marker_m false [D] D <> None /\ marker_m true [D] D = None.
+Proof. exact legacy_plain_opener_refuted. Qed.
+Print Assumptions C19_history_legacy_marker_plain_opener_refuted.
+
+(* tie of the legacy constant: while the code is not delimiter-aware its slice bound is the 3 of the legacy model *)
+Theorem C19_history_marker_mode_tie : autoindent_delimiter_aware = false -> autoindent_drop = 3%nat.
+Proof. intros H. first [reflexivity | discriminate H]. Qed.
+Print Assumptions C19_history_marker_mode_tie.
 
